@@ -31,7 +31,7 @@ func init() {
 		Run: c17Run,
 		Floors: func(m *Merged, tier string) []string {
 			var u []string
-			for _, c := range []string{"overlap_hash_path", "overlap_scan_path", "overlap_true", "overlap_false", "in_true", "in_false", "empty_literal_left", "empty_literal_right", "type_mismatch_errors", "sets_accepted", "symmetry_checked", "folded", "shared_is_max_first", "single_element_lists"} {
+			for _, c := range []string{"overlap_hash_path", "overlap_scan_path", "overlap_true", "overlap_false", "in_true", "in_false", "empty_literal_left", "empty_literal_right", "type_mismatch_errors", "sets_accepted", "symmetry_checked", "folded", "shared_is_max_first", "single_element_lists", "refill_in", "refill_overlap"} {
 				if m.C(c) == 0 {
 					u = append(u, c+" = 0")
 				}
@@ -178,6 +178,94 @@ func c17Run(w *W, idx int) {
 		w.Inc("single_element_lists")
 	}
 	c17Mismatch(w, r, la, lb)
+	c17Refill(w, r, la, lb, isS)
+}
+
+// c17Refill: the caller owns the list it binds and may refill it in place between evaluations (a pooled request
+// buffer): one compiled expression, one backing array, three rounds of contents; every round is judged by the set oracle
+// on the contents of that round.
+func c17Refill(w *W, r *rand.Rand, la, lb int, isS bool) {
+	if la == 0 {
+		return
+	}
+	bufA := mkList(r, la, 1000, isS, 0, false)
+	bufB := mkList(r, lb, 5000, isS, 1, false)
+	opts := []OptSet{OptNone, OptAll}[r.Intn(2)]
+	names := []string{"A", "B", "v"}
+	cc := buildConfig(CaseCfg{Opts: opts, VarNames: names, Custom: stdCustom}, nil)
+	eIn, c1 := compileGuard(cc, "(in v A)")
+	eOv, c2 := compileGuard(cc, "(overlap A B)")
+	eOv2, c3 := compileGuard(cc, "(overlap B A)")
+	if c1.Err != nil || c2.Err != nil || c3.Err != nil || c1.Panic != nil || c2.Panic != nil || c3.Panic != nil {
+		w.Fail("refill-compile", "compiling (in v A) / (overlap A B) failed: %v %v %v", c1, c2, c3)
+		return
+	}
+	var prevMember interface{} = int64(-5)
+	if isS {
+		prevMember = "absent"
+	}
+	for round := 0; round < 3; round++ {
+		if round > 0 {
+			// same backing arrays, same lengths, new contents: shifted so that old members leave and new ones enter
+			shift := int64(7 + 13*round)
+			for i := 0; i < la; i++ {
+				bufA.set(i, 1000+int64(i)*3+shift*100000)
+			}
+			for i := 0; i < lb; i++ {
+				bufB.set(i, 5000+int64(i)*3+shift*100000)
+			}
+			if round == 2 && lb > 0 {
+				bufB.set(lb/2, 1000+shift*100000) // now shares A's first element
+			}
+		}
+		var cur interface{}
+		if isS {
+			cur = bufA.strs[la/2]
+		} else {
+			cur = bufA.ints[la/2]
+		}
+		old := prevMember // a member of the previous round's contents (round 0: an absent value)
+		prevMember = cur
+		for _, p := range []struct {
+			v    interface{}
+			want bool
+		}{{cur, true}, {old, c17Has(bufA, old)}} {
+			vals := map[string]interface{}{"A": bufA.value(), "B": bufB.value(), "v": p.v}
+			o := guard(func() (eval.Value, error) { return eIn.Eval(eval.NewCtxFromVars(cc, vals)) })
+			w.Evals++
+			w.Inc("refill_in")
+			if o.Panic != nil || o.Err != nil || o.V != p.want {
+				w.Fail("in-wrong/refilled-in-place", "(in %s A) = %s, oracle says %v; A (%d elements) is the caller's slice refilled in place, round %d (options %s): %s", valText(p.v), o, p.want, la, round, opts, firstN(valText(bufA.value()), 500))
+			}
+		}
+		want := oracleOverlap(bufA, bufB)
+		for i, e := range []*eval.Expr{eOv, eOv2} {
+			vals := map[string]interface{}{"A": bufA.value(), "B": bufB.value(), "v": int64(0)}
+			o := guard(func() (eval.Value, error) { return e.Eval(eval.NewCtxFromVars(cc, vals)) })
+			w.Evals++
+			w.Inc("refill_overlap")
+			if o.Panic != nil || o.Err != nil || o.V != want {
+				w.Fail("overlap-wrong/refilled-in-place", "%s = %s, oracle says %v; |A|=%d |B|=%d, both the caller's slices refilled in place, round %d (options %s)", []string{"(overlap A B)", "(overlap B A)"}[i], o, want, la, lb, round, opts)
+			}
+		}
+	}
+}
+
+func c17Has(l c17List, v interface{}) bool {
+	if l.isS {
+		for _, x := range l.strs {
+			if x == v {
+				return true
+			}
+		}
+		return false
+	}
+	for _, x := range l.ints {
+		if x == v {
+			return true
+		}
+	}
+	return false
 }
 
 type c17Pass int
